@@ -87,7 +87,7 @@ def showShapes (s : List (List Nat)) : String :=
   "|".intercalate (s.map fun d => "x".intercalate (d.map toString))
 
 def showErr : Err → String
-  | .valueError => "ValueError" | .indexError => "IndexError" | .runtimeError => "RuntimeError"
+  | .valueError => "ValueError" | .typeError => "TypeError" | .indexError => "IndexError" | .runtimeError => "RuntimeError"
   | .badIndices => "BadIndices" | .empty => "Empty" | .unsupported => "Unsupported"
 
 def showStable (o : Obj) : String :=
